@@ -1,20 +1,35 @@
 from vf import Job
 TU = "c17_bulk.c"
+# ghost hook at the first statement of aux's body (measure: decreases b - a), see contracts/c17_bulk.c
 HOOK = [("myth_create_join_various_arg * meta_arg = meta_arg_;",
          "myth_create_join_various_arg * meta_arg = meta_arg_; verif_aux_entered();", 1)]
+# the five products of aux go through the uninterpreted multiplication verif_mul (0 ids, 1 funcs, 2 args, 3 results, 4 attrs)
+MUL = [("a * id_stride", "verif_mul(a, id_stride, 0)", 1), ("a * func_stride", "verif_mul(a, func_stride, 1)", 1),
+       ("a * arg_stride", "verif_mul(a, arg_stride, 2)", 1), ("a * result_stride", "verif_mul(a, result_stride, 3)", 1),
+       ("a * attr_stride", "verif_mul(a, attr_stride, 4)", 1)]
 THREADS = ["myth_create_ex_body/create_contract", "myth_join_body/join_contract"]
 FP = ["myth_create_join_various_ex_aux.function_pointer_call.1/F_watch,F_other"]
 JOBS = [
-  Job("c17.aux", TU, "h_aux", rec=["myth_create_join_various_ex_aux/aux_contract"], replace=THREADS, rewrites=HOOK,
-      restrict_fp=FP, fuc=["myth_create_join_various_ex_aux"], timeout=200),
+  Job("c17.aux", TU, "h_aux", rec=["myth_create_join_various_ex_aux/aux_contract"], replace=THREADS, rewrites=HOOK + MUL,
+      restrict_fp=FP, fuc=["myth_create_join_various_ex_aux"], timeout=200,
+      note="inductive (--enforce-contract-rec): any range [a,b), any n, any strides; i*stride is an uninterpreted function "
+           "constrained by congruence and monotonicity (lemma c17.lemma.mono)"),
   Job("c17.various", TU, "h_various", enforce=["myth_create_join_various_ex_body/various_contract"],
-      replace=["myth_create_join_various_ex_aux/aux_contract"], rewrites=HOOK,
+      replace=["myth_create_join_various_ex_aux/aux_contract"],
       fuc=["myth_create_join_various_ex_body"], timeout=200),
   Job("c17.many", TU, "h_many", enforce=["myth_create_join_many_ex_body/many_contract"],
-      replace=["myth_create_join_various_ex_body/various_contract"], rewrites=HOOK,
+      replace=["myth_create_join_various_ex_body/various_contract"],
       fuc=["myth_create_join_many_ex_body"], timeout=200),
-  Job("c17.lemma.mono", TU, "h_lemma_mono", solver="z3", fuc=[], timeout=100),
+  Job("c17.lemma.mono", TU, "h_lemma_mono", solver="z3", fuc=[], timeout=100,
+      note="x < y and s >= 0 imply x*s + s <= y*s over the mathematical integers (z3); machine products of operands below 2^31 do not overflow"),
 ]
+for k, strides in enumerate(("ids 8, funcs 0, args 1, results 8, attrs 0", "ids 24, funcs 16, args 40, results 32, attrs 48",
+                             "ids 4096, funcs 8, args 0, results 16, attrs 7")):
+    JOBS.append(Job("c17.aux.s%d" % k, TU, "h_aux", rec=["myth_create_join_various_ex_aux/aux_contract"], replace=THREADS,
+      rewrites=HOOK, restrict_fp=FP, defines=["-DVMUL=0", "-DSAMPLE=%d" % k], kind="bounded",
+      fuc=["myth_create_join_various_ex_aux"], timeout=200,
+      note="bounded cross-check with the REAL multiplications of the text (no verif_mul): constant stride tuple (%s), any n < 2^31; "
+           "the axioms of the product table are assertions here" % strides))
 META = {
  "level": "proof",
  "level_text": "",
